@@ -117,6 +117,19 @@ Record commit := {
 
 Inductive lrec := LFrame (f : frame) | LCommit (c : commit).
 
+(* field ranges of the Rust types (u16/u32/u64/[u8;32]) and valid enum codes *)
+Definition wf_frame (f : frame) : Prop :=
+  f_ver f < 2 ^ 16 /\ f_epoch f < 2 ^ 256 /\ f_seg f < 2 ^ 64 /\ f_lsn f < 2 ^ 64 /\
+  f_tx f < 2 ^ 256 /\ f_idx f < 2 ^ 32 /\ rkind_valid (f_kind f) = true /\ f_plen f < 2 ^ 64 /\
+  f_pdig f < 2 ^ 256 /\ f_codec f < 2 ^ 256 /\ f_schema f < 2 ^ 256 /\ f_sver f < 2 ^ 16 /\
+  f_cver f < 2 ^ 16 /\ f_domain f < 2 ^ 256 /\ comp_valid (f_comp f) = true /\
+  red_valid (f_red f) = true /\ f_prev f < 2 ^ 256 /\ f_hchk f < 2 ^ 32 /\ f_psver f < 2 ^ 16 /\
+  lenN (f_pbytes f) < 2 ^ 64 /\ f_fchk f < 2 ^ 32.
+Definition wf_commit (c : commit) : Prop :=
+  c_epoch c < 2 ^ 256 /\ c_tx c < 2 ^ 256 /\ txkind_valid (c_kind c) = true /\ c_first c < 2 ^ 64 /\
+  c_last c < 2 ^ 64 /\ c_count c < 2 ^ 64 /\ c_root c < 2 ^ 256 /\ c_froot c < 2 ^ 256 /\
+  c_prev c < 2 ^ 256 /\ dur_valid (c_dur c) = true /\ c_sver c < 2 ^ 16 /\ c_digest c < 2 ^ 256.
+
 (* ------------------------------------------------------------------ byte cursor *)
 Definition take (n : nat) (bs : bytes) : res (bytes * bytes) :=
   if Nat.ltb (length bs) n then Err EEof else Ok (firstn n bs, skipn n bs).
@@ -308,10 +321,16 @@ Definition decode_rec (kind : N) (payload : bytes) : res lrec :=
 
 Definition read_segment (bs : bytes) : res (list lrec * bool) := read_records decode_rec bs.
 
-Definition enc_lrec (r : lrec) : bytes :=
+Definition lrec_kind (r : lrec) : N := match r with LFrame _ => 1 | LCommit _ => 2 end.
+Definition lrec_payload (r : lrec) : bytes :=
+  match r with LFrame f => encode_frame f | LCommit c => encode_commit c end.
+Definition enc_lrec (r : lrec) : bytes := enc_rec (lrec_kind r) (lrec_payload r).
+Definition lrec_size (r : lrec) : nat := (49 + length (lrec_payload r))%nat.
+(* what append_frame / flush_commit accept: in-range fields, and frames pass validate_integrity *)
+Definition lrec_wf (r : lrec) : Prop :=
   match r with
-  | LFrame f => enc_rec 1 (encode_frame f)
-  | LCommit c => enc_rec 2 (encode_commit c)
+  | LFrame f => wf_frame f /\ frame_ok f = true
+  | LCommit c => wf_commit c
   end.
 Definition encode_log (rs : list lrec) : bytes := flat_map enc_lrec rs.
 
